@@ -100,6 +100,7 @@ var labServices = []labSvc{
 	{"memcached", "memcached", "tcp", 11211, ""},
 	{"memcachedu", "memcached", "udp", 11211, ""},
 	{"http", "http", "tcp", 80, ""},
+	{"https", "https", "tcp", 443, ""},
 	{"echo", "echo", "tcp", 7, ""},
 	{"echou", "echo", "udp", 7, ""},
 	{"dns", "dns", "udp", 53, ""},
@@ -125,6 +126,9 @@ var labServices = []labSvc{
 	{"snmp-tcp", "snmp", "tcp", 5161, ""},
 	{"tftp-tcp", "tftp", "tcp", 5069, ""},
 	{"counterstrike-tcp", "counterstrike", "tcp", 5015, ""},
+	// a port shared by two services (the first one with a payload detector): the server looks at the client's first
+	// bytes before it chooses
+	{"shared", "http", "tcp", 8000, ""},
 }
 
 var labScratchDir string
@@ -190,7 +194,11 @@ func newSvcLab(names ...string) (*svcLab, error) {
 		lab.byNm[s.name] = s
 		body := labBody(s)
 		fmt.Fprintf(&b, "[service.%s]\ntype = %s\n%s\n", s.name, q(s.typ), body)
-		fmt.Fprintf(&b, "[[port]]\nport = %s\nservices = [%s]\n", q(fmt.Sprintf("%s/%d", s.proto, s.port)), q(s.name))
+		svcs := q(s.name)
+		if _, ok := lab.byNm["cwmp"]; ok && s.name == "shared" {
+			svcs = q("cwmp") + ", " + q("shared")
+		}
+		fmt.Fprintf(&b, "[[port]]\nport = %s\nservices = [%s]\n", q(fmt.Sprintf("%s/%d", s.proto, s.port)), svcs)
 	}
 	b.WriteString("[channel.cap]\ntype = \"verif-evs\"\nname = \"cap\"\n[[filter]]\nchannel = [\"cap\"]\n")
 	lastEvCap = nil
